@@ -189,6 +189,11 @@ def check_helper(c):
     rack = {c["slot"]: dict(c["module"])}
     tgt = RefPLC(MINI_PROJECT, {"/t": b"\x00" * 4}, {"identity": idn, "plc_name": c["plc_name"], "rack": rack, "expected_route": b"\x01\x00",
                                                      "wall_clock": c["clock0"]})
+    import os
+    import time as _time
+    old_tz = os.environ.get("TZ")
+    os.environ["TZ"] = c.get("tz", "UTC0")     # the reported datetime must not depend on the client's time zone
+    _time.tzset()
     harness.install(tgt)
     try:
         plc = LogixDriver("10.0.0.9", init_tags=False)
@@ -236,8 +241,18 @@ def check_helper(c):
         plc.close()
     except PycommError as e:
         discs.append(Disc(f"helper.raises.{type(e).__name__}", f"{e!r} <- {e.__cause__!r}"[:500]))
+    except Exception as e:
+        from ..scenario import where
+        if where(e) == "harness":
+            raise
+        discs.append(Disc(f"helper.foreign.{type(e).__name__}.{where(e)}", f"{e!r} (tz {c.get('tz')})"[:400]))
     finally:
         harness.uninstall()
+        if old_tz is None:
+            os.environ.pop("TZ", None)
+        else:
+            os.environ["TZ"] = old_tz
+        _time.tzset()
     return discs
 
 
@@ -299,7 +314,7 @@ def helper_cases(draw):
     tmax = 253_402_300_799_000_000
     clock = st.one_of(st.integers(0, tmax), st.sampled_from([0, 1, 999_999, 1_000_000, 1_600_000_000_123_456, tmax]))
     return {"identity": ident(), "module": ident(), "slot": draw(st.integers(1, 16)), "plc_name": draw(st.text(alphabet="ABCxyz_019 ", max_size=20)),
-            "clock0": draw(clock), "clock1": draw(clock)}
+            "clock0": draw(clock), "clock1": draw(clock), "tz": draw(st.sampled_from(["UTC0", "UTC0", "EST5", "CET-1", "NPT-5:45", "AEST-10AEDT"]))}
 
 
 def classes_of(c):
